@@ -77,7 +77,12 @@ def make_case(rng, tier, mode=None, codec=None, size="small"):
         ops.append(T("set_compression", [codec]))
     else:
         calls = [T("with_compression", [codec]), T("with_required_acks", [acks])]
+        if rng.random() < 0.4:
+            calls.append(T("with_partitioner"))       # re-installs the default partitioner: the codec chosen before it must survive
         rng.shuffle(calls)
+        if rng.random() < 0.3:
+            # the client handed to the builder has another codec of its own: the builder's choice is the one in force
+            ops.append(T("set_compression", [rng.choice([c for c in (0, 1, 2) if c != codec])]))
         ops.append(T("producer_build", [T("from_client"), calls]))
     nboot = len(ops)
     batches = []
